@@ -59,7 +59,7 @@ fn c16_q_kernel_4() {
 fn c16_t_kernel_3() {
     kernel::<3>();
 }
-// H: tier=thorough; timeout=3000; sym=5 vertices, integer coordinates in [-8,8]^2; call=PolygonRing::from; asserts=as kernel_4
+// H: tier=manual; timeout=3000; sym=5 vertices, integer coordinates in [-8,8]^2; call=PolygonRing::from; asserts=as kernel_4; note=not run by any tier: the 3-interior-vertex orientation proofs did not finish in 900 s (FP shoelace vs integer oracle is solver-hard); untested at longer budgets
 #[kani::proof]
 #[kani::unwind(8)]
 fn c16_t_kernel_5() {
@@ -182,9 +182,9 @@ ring!(c16_q_polygonz_closed4_outer, PointZ, 4, true, true);
 ring!(c16_t_polygon_open4_outer, Point, 4, true, false);
 // H: tier=thorough; timeout=3000; unwind=10; sym=open ring of 4 PointM declared Inner; call=PolygonM::with_rings; asserts=as above
 ring!(c16_t_polygonm_open4_inner, PointM, 4, false, false);
-// H: tier=thorough; timeout=5000; unwind=10; sym=closed ring of 5 Points declared Outer (3 interior vertices); call=Polygon::with_rings; asserts=as above
+// H: tier=manual; timeout=5000; unwind=10; sym=closed ring of 5 Points declared Outer (3 interior vertices); call=Polygon::with_rings; asserts=as above; note=not run by any tier: the 3-interior-vertex orientation proofs did not finish in 900 s (FP shoelace vs integer oracle is solver-hard); untested at longer budgets
 ring!(c16_t_polygon_closed5_outer, Point, 5, true, true);
-// H: tier=thorough; timeout=5000; unwind=10; sym=closed ring of 5 PointZ declared Inner; call=PolygonZ::with_rings; asserts=as above
+// H: tier=manual; timeout=5000; unwind=10; sym=closed ring of 5 PointZ declared Inner; call=PolygonZ::with_rings; asserts=as above; note=not run by any tier: the 3-interior-vertex orientation proofs did not finish in 900 s (FP shoelace vs integer oracle is solver-hard); untested at longer budgets
 ring!(c16_t_polygonz_closed5_inner, PointZ, 5, false, true);
 // H: tier=thorough; timeout=3000; unwind=10; sym=open ring of 3 Points declared Outer; call=Polygon::with_rings; asserts=as above
 ring!(c16_t_polygon_open3_outer, Point, 3, true, false);
